@@ -11,18 +11,31 @@ NEVER = 10 ** 40
 NEVER_TOKENS = ("max", "smax", "hmax")
 
 
+DEFAULT_DELAY_US = 1000000      # `HedgeConfig::default()`: one second (header token `dflt`)
+DEFAULT_MAX = 2                 # … and the original request plus one hedge (`max=dflt`)
+
+
 def _delay_tok(x, mul):
     if x in NEVER_TOKENS:
         return NEVER
+    if x == "dflt":
+        return DEFAULT_DELAY_US
     return int(x) * mul if x.isdigit() else None
 
 
 def delay_fn(cfg):
-    """header -> (max, delay(n) in MICROSECONDS for attempt number n >= 1), exactly as the adapter builds the layer
-    (`unit=us`: d and ds are microseconds; default milliseconds; NEVER for max/smax/hmax)"""
-    mx = max(int(cfg.get("max", "2")), 1)
+    """header -> (max, delay(n) in MICROSECONDS for attempt number n >= 1), as the crate documents the configuration
+    the adapter asks for (`unit=us`: d and ds are microseconds; default milliseconds; NEVER for max/smax/hmax;
+    `via=new`/`via=direct`/`max=dflt`/`d=dflt`: the shortcut constructor and the documented defaults; `max=0`: 1)"""
+    via = cfg.get("via", "builder")
+    m = cfg.get("max", "2")
+    mx = max(int(m), 1) if m.isdigit() else DEFAULT_MAX      # the builder documents the clamp: 0 means 1
     mul = 1 if cfg.get("unit", "ms") == "us" else 1000
     d = _delay_tok(cfg.get("d", "0"), mul) or 0
+    if via == "direct":                 # Hedge::new(inner, HedgeConfig::default())
+        return DEFAULT_MAX, (lambda n: DEFAULT_DELAY_US)
+    if via == "new":                    # HedgeLayer::new(d): "a single hedge request after the specified delay"
+        return DEFAULT_MAX, (lambda n: d)
     ds = [v for v in (_delay_tok(x, mul) for x in cfg.get("ds", "").split(",")) if v is not None]
     kind = cfg.get("kind", "fixed")
 
@@ -78,7 +91,10 @@ def _us_delay(rng, base):
 
 
 def gen(rng, tier):
-    mx = rng.choice([1, 2, 2, 2, 3, 3, 3, 4, 5])
+    # what the builder is asked for (0 is a legal argument: "including the original request", clamped to 1) and what
+    # the call can do
+    mx_cfg = rng.choice([0, 0, 1, 1, 2, 2, 2, 2, 2, 3, 3, 3, 3, 3, 4, 4, 5, 5])
+    mx = max(mx_cfg, 1)
     r = rng.random()
     base = rng.choice([1, 5, 10, 10, 20, rng.randint(2, 40)])
     BIG = 10 ** 6            # planning: a delay of BIG ms or more is never waited for in a case
@@ -90,7 +106,7 @@ def gen(rng, tier):
         us = rng.random() < 0.2
         if r < 0.12:
             t = tok()
-            header = "hedge max=%d d=%s kind=fixed" % (mx, t)
+            header = "hedge max=%d d=%s kind=fixed" % (mx_cfg, t)
             lst, dflt = [], t
         else:
             n = rng.randint(0, mx)
@@ -106,7 +122,7 @@ def gen(rng, tier):
                     lst[pos] = tok()
                 else:
                     dflt = tok()
-            header = "hedge max=%d kind=fn ds=%s d=%s" % (mx, ",".join(lst), dflt)
+            header = "hedge max=%d kind=fn ds=%s d=%s" % (mx_cfg, ",".join(lst), dflt)
         if us:
             header += " unit=us"
         val = lambda x: BIG if not x.isdigit() or int(x) >= BIG else ((int(x) + 999) // 1000 if us else int(x))
@@ -118,7 +134,7 @@ def gen(rng, tier):
         # microsecond-resolution delays (`unit=us`): the timer fires at the next whole millisecond
         if r < 0.45:
             du = max(1, _us_delay(rng, base)) if rng.random() < 0.9 else 0
-            header = "hedge max=%d d=%d kind=fixed unit=us" % (mx, du)
+            header = "hedge max=%d d=%d kind=fixed unit=us" % (mx_cfg, du)
             dsu = [du] * 8
         else:
             n = rng.randint(0, mx)
@@ -126,19 +142,19 @@ def gen(rng, tier):
             if lst and rng.random() < 0.8:
                 lst[0] = max(lst[0], rng.choice([1, 500, 999]))      # mostly latency mode, often by a sub-millisecond delay
             dflt = _us_delay(rng, base)
-            header = "hedge max=%d kind=fn ds=%s d=%d unit=us" % (mx, ",".join(map(str, lst)), dflt)
+            header = "hedge max=%d kind=fn ds=%s d=%d unit=us" % (mx_cfg, ",".join(map(str, lst)), dflt)
             dsu = lst + [dflt] * 8
         ds = [(x + 999) // 1000 for x in dsu]
         if ds[0] == 0 and dsu[0] > 0:
             ds[0] = 1
     elif r < 0.50:
-        header = "hedge max=%d d=%d kind=fixed" % (mx, base)
+        header = "hedge max=%d d=%d kind=fixed" % (mx_cfg, base)
         ds = [base] * 8
     elif r < 0.58:
-        header = "hedge max=%d d=0 kind=fixed" % mx
+        header = "hedge max=%d d=0 kind=fixed" % mx_cfg
         ds = [0] * 8
     elif r < 0.70:
-        header = "hedge max=%d kind=imm" % mx
+        header = "hedge max=%d kind=imm" % mx_cfg
         ds = [0] * 8
     else:
         n = rng.randint(0, mx)
@@ -146,15 +162,50 @@ def gen(rng, tier):
         if lst and rng.random() < 0.75:
             lst[0] = max(lst[0], 1)          # mostly latency mode; sometimes a zero first delay (parallel by function)
         dflt = rng.choice([0, base, rng.randint(1, 20)])
-        header = "hedge max=%d kind=fn ds=%s d=%d" % (mx, ",".join(map(str, lst)), dflt)
+        header = "hedge max=%d kind=fn ds=%s d=%d" % (mx_cfg, ",".join(map(str, lst)), dflt)
         ds = lst + [dflt] * 8
+    # construction paths other than `HedgeLayer::builder()` with every setter called, and the documented defaults
+    v = rng.random()
+    plain = True
+    if v < 0.05:
+        # the shortcut `HedgeLayer::new(delay)`: one hedge after `delay`
+        tok = rng.choice([base, base, base, 1, 0, rng.randint(1, 40), "max"])
+        header = "hedge via=new d=%s" % tok
+        mx, ds, plain = 2, [BIG if tok == "max" else tok] * 8, False
+    elif v < 0.075:
+        # no layer: `Hedge::new(inner, HedgeConfig::default())` — two attempts, one second apart
+        header = "hedge via=direct"
+        mx, ds, plain = 2, [1000] * 8, False
+    elif v < 0.12:
+        # setters that are not called: default max_hedged_attempts (2) and/or default delay (1 s)
+        which = rng.choice(["max", "d", "both"])
+        if which in ("max", "both"):
+            mx = 2
+        dd = "dflt" if which in ("d", "both") else str(base)
+        header = "hedge max=%s d=%s kind=fixed" % ("dflt" if which in ("max", "both") else str(mx_cfg), dd)
+        ds = [1000 if dd == "dflt" else base] * 8
+    if plain:
+        if rng.random() < 0.15:
+            header = header.replace("hedge ", "hedge via=dflt ", 1)         # `HedgeConfigBuilder::default()`
+        if rng.random() < 0.25:
+            header += " name=h%d" % rng.randint(0, 9) + (" nameat=first" if rng.random() < 0.3 else "")
+        if rng.random() < 0.25:
+            header += " listen=1"
     parallel = ds[0] == 0 or mx == 1
+    # which handle makes the call: several services from the one layer value (some from a clone of the layer taken
+    # then), handles that are kept and used for one request after the other, clones of such handles taken after calls
+    multi = rng.random() < 0.3
+    reuse = rng.random() < 0.35
+    accy = rng.random() < 0.5             # callers that look at their error through HedgeError's accessors
+    refusy = rng.random() < 0.12          # handles whose inner service fails a readiness poll
+    handles = []
     warmy = mx > 1 and rng.random() < 0.28     # fresh clones of the inner service that are not ready at once
+    faily = warmy and rng.random() < 0.35      # … or that fail their readiness poll
     ties = rng.random() < 0.25
     fail_heavy = rng.random() < 0.45
     exotic = rng.random() < 0.18           # panic / never outcomes (outside the property's quantifier, modelled anyway)
     all_panic = exotic and rng.random() < 0.25
-    ncall = rng.choice([1, 1, 1, 2, 2, 3])
+    ncall = rng.choice([2, 3, 3, 4, 5]) if reuse or multi else rng.choice([1, 1, 1, 2, 2, 3])
 
     # expected start offsets of attempt i if the caller is polled promptly
     offs = [0]
@@ -206,18 +257,35 @@ def gen(rng, tier):
             off = offs[i] if i < len(offs) else 0
             ws.append(rng.choice([0, 1, base, 2 * base, max(0, lat0 - off - 1), max(0, lat0 - off), max(0, lat0 - off) + 1,
                                   max(0, lat0 - off) + rng.randint(1, 40), rng.randint(1, 60), rng.randint(1, 60), "never"]))
+            if faily and rng.random() < 0.45:
+                ws[-1] = "fail"          # the clone's readiness poll answers with an error: the attempt is over at once
         return ws
 
     def arrive_op(c, p, ws):
         op = "arrive %d inner=%s" % (c, ",".join("%d:%s" % s for s in p))
         if ws:
             op += " warm=" + ",".join(str(x) for x in ws)
+        if multi and rng.random() < 0.8:
+            op += " svc=%d" % rng.choice([0, 1, 1, 2])
+            if rng.random() < 0.3:
+                op += " lc=1"
+        if reuse and rng.random() < 0.85:
+            h = rng.choice([1, 1, 1, 2, 2, 3])
+            op += " h=%d" % h
+            if handles and rng.random() < 0.4:
+                op += " from=%d" % rng.choice(handles)      # (only looked at when handle h does not exist yet)
+            if h not in handles:
+                handles.append(h)
+        if accy and rng.random() < 0.8:
+            op += " acc=1"
+        if refusy and rng.random() < 0.25:
+            op += " rdy=err"
         return op
 
     def add_marks(p, ws):
         for i, off in enumerate(offs):
             marks.append(now + off)
-            w = ws[i - 1] if 1 <= i <= len(ws) and ws[i - 1] != "never" else 0
+            w = ws[i - 1] if 1 <= i <= len(ws) and ws[i - 1] not in ("never", "fail") else 0
             marks.append(now + off + w)
             marks.append(now + off + w + (p[i][0] if i < len(p) else 0))
 
@@ -238,6 +306,8 @@ def gen(rng, tier):
             ops.append("poll %d" % rng.choice(arrived))
         elif r < 0.44 and arrived:
             ops.append("drop %d" % rng.choice(arrived))
+        elif r < 0.446 and arrived and (reuse or multi):
+            ops.append("manual dropsvc")        # the layer, the services and the kept handles go; calls in flight stay
         elif r < 0.80:
             fut = sorted(set(m for m in marks if m > now))
             if fut and rng.random() < 0.8:
@@ -290,6 +360,7 @@ class View:
                 self.plans[w[1]] = plan_of(o)
         self.calls = {}       # c -> [(pos, t, k)] in call order
         self.warms = {}       # c -> {attempt number: (pos, t)}: first readiness poll of the fresh clone of a hedge
+        self.rfail = {}       # c -> {attempt number: (pos, t)}: … that was answered with an error (the attempt failed there)
         self.att = {}         # serial -> attempt number of that inner call (harness: `#att c k i`)
         self.held = []        # (pos, c, t, k): the caller polled c at t, attempt k had succeeded before, c stayed pending
         self.done = {}        # k -> (pos, t, out)
@@ -315,6 +386,8 @@ class View:
                 self.calls.setdefault(w[1], []).append((i, t, w[2]))
             elif w[0] == "inner_warm":
                 self.warms.setdefault(w[1], {}).setdefault(int(w[2]), (i, t))
+                if w[3] == "fail":
+                    self.rfail.setdefault(w[1], {}).setdefault(int(w[2]), (i, t))
             elif w[0] == "inner_done":
                 self.done[w[2]] = (i, t, w[3])
             elif w[0] == "result":
@@ -347,6 +420,10 @@ def mon_bounded(case, lines, meta):
         st = v.starts(c)
         if len(st) > v.max or (st and st[-1][0] >= v.max):
             return "request %s: attempt number %d started, max_hedged_attempts=%d" % (c, st[-1][0], v.max)
+        for (i, pos, t, k, _) in v.attempts(c):
+            if i in v.rfail.get(c, {}):
+                return ("request %s: attempt %d called the inner service (serial %s, t=%d) although its clone had answered the "
+                        "readiness poll with an error" % (c, i, k, t))
     return None
 
 
@@ -423,6 +500,10 @@ def mon_resolves_not_panics(case, lines, meta):
         if text != "panic":
             continue
         at = [a for a in v.attempts(c) if a[1] < rpos]
+        if not at:
+            return ("request %s: polling the call panicked at t=%d before a single attempt was started: the original request "
+                    "was never forwarded to the inner service (max_hedged_attempts=%s is documented to mean at least the "
+                    "original request)" % (c, rt, v.cfg.get("max", "2")))
         for (i, pos, t, k, (lat, out)) in at:
             if out != "panic":
                 what = ("succeeds at t=%d" % (t + lat)) if out == "ok" else \
@@ -430,9 +511,79 @@ def mon_resolves_not_panics(case, lines, meta):
                 return ("request %s: polling the call panicked at t=%d although attempt %d (serial %s, started t=%d) %s: "
                         "the caller never gets %s" % (c, rt, i, k, t, what,
                                                       "that response" if out == "ok" else "a result of its attempts"))
+        for i, (pos, t) in sorted(v.rfail.get(c, {}).items()):
+            if pos < rpos:
+                return ("request %s: polling the call panicked at t=%d although attempt %d failed with an error (its clone's "
+                        "readiness error, t=%d): the caller never gets a result of its attempts" % (c, rt, i, t))
         if len(at) < v.max and not v.parallel:
             return ("request %s: polling the call panicked at t=%d with %d of %d attempts started (latency mode)"
                     % (c, rt, len(at), v.max))
+    return None
+
+
+def arrive_words(case):
+    """request id -> key=value words of its (first) arrive op"""
+    arr = {}
+    for o in case["ops"]:
+        w = o.split()
+        if len(w) > 1 and w[0] == "arrive" and w[1] not in arr:
+            arr[w[1]] = kvs(" ".join(w[2:]))
+    return arr
+
+
+def mon_accessors(case, lines, meta):
+    """what a caller reads off its error: `HedgeError::AllAttemptsFailed(e)` is all-attempts-failed and not an inner error,
+    `HedgeError::Inner(e)` the other way round, `inner()`/`into_inner()` give `e` (also from a clone of the error).
+    `HedgeError::Inner` is the answer to a request whose handle failed its readiness poll, never the result of a call:
+    an attempt's error only ever reaches the caller inside all-attempts-failed."""
+    arr = arrive_words(case)
+    called = set()
+    for l in lines:
+        t, w = tparse(l)
+        if not w:
+            continue
+        if w[0] == "inner_call":
+            called.add(w[1])
+        if w[0] != "result" or len(w) < 3:
+            continue
+        c, text = w[1], w[2]
+        a = arr.get(c, {})
+        if a.get("rdy") == "err":
+            if text != "err:inner9:0":
+                return ("request %s: the readiness poll of its handle failed with the inner error inner9:0, it was answered %s "
+                        "(expected HedgeError::Inner carrying that error)" % (c, text))
+            if c in called:
+                return "request %s: its handle was not ready (readiness error), yet the inner service was called for it" % c
+        elif text.startswith("err:inner"):
+            return ("request %s resolved with %s (HedgeError::Inner) although its handle was ready: a call reports the failure "
+                    "of its attempts as all-attempts-failed only" % (c, text))
+        if a.get("acc") == "1" and text.startswith("err:"):
+            if len(w) < 4 or not w[3].startswith("acc="):
+                return "request %s (acc=1): the result line carries no accessor word: %s" % (c, l)
+            f = dict(x.split(":", 1) for x in w[3][4:].split(",") if ":" in x)
+            allf = text.startswith("err:all_failed:")
+            e = text[len("err:all_failed:"):] if allf else text[len("err:"):]
+            want = {"af": "1" if allf else "0", "in": "0" if allf else "1", "ref": e, "into": e}
+            if f != want:
+                return ("request %s resolved with %s, but through the accessors the caller reads is_all_attempts_failed()=%s "
+                        "is_inner()=%s inner()=%s into_inner()=%s (expected %s %s %s %s)" % (
+                            c, text, f.get("af"), f.get("in"), f.get("ref"), f.get("into"),
+                            want["af"], want["in"], want["ref"], want["into"]))
+    return None
+
+
+def mon_event_names(case, lines, meta):
+    """the events a listener sees carry the configured name (`pattern_name()`: the name given to `.name(..)`, "hedge"
+    without one). Not a clause of C12 — it pins what the `.name(..)` setter is modelled to be (a label and nothing
+    else), so a failure is reported as a broken correspondence, not as a failing input."""
+    cfg = kvs(case["header"])
+    if cfg.get("via") in ("new", "direct") or cfg.get("listen") != "1":
+        return None
+    want = cfg.get("name", "hedge")
+    for _, m in meta:
+        ws = m.split()
+        if ws and ws[0] == "#ev" and (len(ws) < 3 or ws[2] != want):
+            return "PINNED: a listener of the layer named %r saw the event %r" % (want, m)
     return None
 
 
@@ -443,9 +594,11 @@ def mon_all_failed(case, lines, meta):
             continue
         at = v.attempts(c)
         started = [a for a in at if a[1] < rpos]
-        if len(started) != v.max:
-            return "request %s reported all-attempts-failed at t=%d with %d of %d attempts having called the inner service" % (
-                c, rt, len(started), v.max)
+        # attempts whose fresh clone failed its readiness poll: started and failed, without an inner call
+        rfailed = [i for i, (pos, t) in v.rfail.get(c, {}).items() if pos < rpos]
+        if len(started) + len(rfailed) != v.max:
+            return ("request %s reported all-attempts-failed at t=%d with %d of %d attempts having called the inner service%s" % (
+                c, rt, len(started), v.max, (" and %d having failed their readiness poll" % len(rfailed)) if rfailed else ""))
         for (i, pos, t, k, (lat, out)) in started:
             if out == "ok" or out == "never":
                 return "request %s reported all-attempts-failed at t=%d although attempt %d (serial %s) is scripted %s (latency %d, started t=%d)" % (
@@ -455,7 +608,7 @@ def mon_all_failed(case, lines, meta):
                     c, rt, i, k, out, t + lat)
         # the carried error is an error of one of this request's attempts
         w = text.split(":")
-        if len(w) >= 4 and w[3] not in [a[3] for a in started]:
+        if len(w) >= 4 and w[3] not in [a[3] for a in started] and not (rfailed and w[2:4] == ["inner9", "0"]):
             return "request %s: all-attempts-failed carries an error of serial %s, not one of its attempts" % (c, w[3])
     return None
 
@@ -515,6 +668,46 @@ def transitions(case, lines, meta=None):
     if nevers:
         tags.append("delay-never-due-ignored-parallel" if parallel else "delay-never-due")
     nstarted = {}     # c -> number of attempts started so far
+    rfc = set()       # requests one of whose attempts failed its readiness poll
+    # construction paths, configuration defaults, handles
+    via = cfg.get("via", "builder")
+    if via != "builder":
+        tags.append({"new": "via-shortcut-new", "direct": "via-service-new-default-config", "dflt": "via-builder-default-impl"}.get(via, "via-other"))
+    if cfg.get("max") == "0" and via not in ("new", "direct"):
+        tags.append("max-zero-clamped")
+    if cfg.get("max") == "dflt":
+        tags.append("max-not-set")
+    if cfg.get("d") == "dflt" and cfg.get("kind", "fixed") == "fixed":
+        tags.append("delay-not-set")
+    if "name" in cfg and via not in ("new", "direct"):
+        tags.append("named")
+    arr = arrive_words(case)
+    svcs = set()
+    gone = False
+    for o in case["ops"]:
+        w = o.split()
+        if w[:2] == ["manual", "dropsvc"]:
+            gone = True
+        elif w and w[0] == "arrive" and not gone:
+            a = kvs(" ".join(w[2:]))
+            if "h" not in a or not any(m.startswith("#handle %s %s reuse" % (w[1], a["h"])) or
+                                       m.startswith("#handle %s %s clone" % (w[1], a["h"])) for _, m in (meta or [])):
+                k = a.get("svc", "0")
+                if k not in svcs:
+                    if svcs:
+                        tags.append("second-service-from-layer")
+                        if a.get("lc") == "1":
+                            tags.append("service-from-layer-clone")
+                    svcs.add(k)
+        elif w and w[0] == "arrive" and gone:
+            tags.append("arrive-after-dropsvc")
+    busy = set()      # requests with a call in flight (arrived, no result yet)
+    for _, m in (meta or []):
+        ws = m.split()
+        if ws[0] == "#handle":
+            tags.append({"reuse": "handle-reused", "clone": "handle-cloned-after-call", "new": "handle-new"}[ws[3]])
+        elif ws[0] == "#ev":
+            tags.append("listener-event")
 
     def started(c, n):
         nstarted[c] = max(nstarted.get(c, 0), n + 1)
@@ -539,6 +732,10 @@ def transitions(case, lines, meta=None):
             listed.add((w[1], int(w[2])))
             if w[3] == "0":
                 tags.append("clone-ready-at-once")
+            elif w[3] == "fail":
+                tags.append("clone-readiness-error")
+                errs[w[1]] = errs.get(w[1], 0) + 1
+                rfc.add(w[1])
             else:
                 waiting[(w[1], int(w[2]))] = t
                 tags.append("clone-never-ready" if w[3] == "never" else "clone-warming")
@@ -575,17 +772,27 @@ def transitions(case, lines, meta=None):
             done_at[(c, t)] = 1
         elif w[0] == "result":
             resolved.add(w[1])
-            if w[2].startswith("ok:"):
+            if len(w) > 3 and w[3].startswith("acc="):
+                tags.append("accessors-inner" if w[2].startswith("err:inner") else "accessors-all-failed")
+            if w[2].startswith("err:inner"):
+                tags.append("refused-readiness-error")
+                if any(c not in resolved for c in ncalls):
+                    tags.append("refused-while-calls-in-flight")
+            elif w[2].startswith("ok:"):
                 n = owner.get(w[2][3:], (None, 0))[1]
                 tags.append("result-ok-primary" if n == 0 else "result-ok-hedge")
                 if errs.get(w[1], 0) > 0:
                     tags.append("result-ok-after-error")
+                if w[1] in rfc:
+                    tags.append("result-ok-after-readiness-error")
                 if any(c == w[1] for (c, _) in waiting):
                     tags.append("result-ok-while-clone-warming")
                 if not parallel and nstarted.get(w[1], 0) in nevers:
                     tags.append("result-ok-while-timer-never-due")
             elif w[2].startswith("err:all_failed"):
                 tags.append("result-all_failed-parallel" if parallel else "result-all_failed-latency")
+                if w[1] in rfc:
+                    tags.append("result-all_failed-with-readiness-error")
             elif w[2] == "panic":
                 tags.append("result-panic")
             else:
@@ -616,7 +823,8 @@ SPECS = {
                      ("c12-first-success-wins", mon_first_success), ("c12-success-at-once", mon_success_at_once),
                      ("c12-resolves-not-panics", mon_resolves_not_panics),
                      ("c12-all-failed-only-when-all-failed", mon_all_failed),
-                     ("c12-no-late-start", mon_no_late_start), ("c12-script-and-wakeups", mon_script)],
+                     ("c12-no-late-start", mon_no_late_start), ("c12-error-accessors", mon_accessors),
+                     ("c12-script-and-wakeups", mon_script), ("c12-event-names", mon_event_names)],
         "transitions": transitions,
         "nontrivial": nontrivial,
         "all_transitions": ["start-primary", "start-hedge", "start-parallel", "start-hedge-after-error", "start-hedge-zero-delay",
@@ -627,11 +835,20 @@ SPECS = {
                             "result-ok-while-timer-never-due",
                             "done-ok", "done-err", "done-panic", "done-after-result", "done-tie",
                             "result-ok-primary", "result-ok-hedge", "result-ok-after-error",
-                            "result-all_failed-latency", "result-all_failed-parallel", "result-panic"],
+                            "result-all_failed-latency", "result-all_failed-parallel", "result-panic",
+                            "via-shortcut-new", "via-service-new-default-config", "via-builder-default-impl",
+                            "max-zero-clamped", "max-not-set", "delay-not-set", "named", "listener-event",
+                            "second-service-from-layer", "service-from-layer-clone", "handle-new", "handle-reused",
+                            "handle-cloned-after-call", "arrive-after-dropsvc", "accessors-all-failed", "accessors-inner",
+                            "refused-readiness-error", "refused-while-calls-in-flight",
+                            "clone-readiness-error", "result-all_failed-with-readiness-error", "result-ok-after-readiness-error"],
         "model_modules": ["TR.Model.Hedge", "TR.Lemmas.Hedge", "TR.Mutants.HedgeEarlyAllFailed"],
         "lean_files": ["TR.Model.Hedge", "TR.Lemmas.Hedge"],
         "sizes": (600, 40000),
-        "rule": "seeded random op sequences (arrive/poll/drop/adv/settle) over 1..3 requests, max_hedged_attempts 1..5, fixed / zero / "
+        "rule": "seeded random op sequences (arrive/poll/drop/adv/settle) over 1..5 requests, max_hedged_attempts 0..5 as given to the "
+                "builder (0: the documented clamp to 1) or not set at all, construction through HedgeLayer::builder(), "
+                "HedgeConfigBuilder::default(), the shortcut HedgeLayer::new(delay) or Hedge::new(inner, HedgeConfig::default()), "
+                "with/without .name(..) (first or last setter) and an event listener, the default delay (1 s) or fixed / zero / "
                 "immediate / per-attempt delays (a sixth of the cases with microsecond resolution: 0, 1..999 us, 1000, 1001, broken and "
                 "whole milliseconds mixed per attempt; a tenth with a delay no Instant can be moved by — Duration::MAX, from_secs(u64::MAX), "
                 "from_secs(1<<63) — or a very long one (30 years, u64::MAX ms), fixed or at any position of a per-attempt function, "
@@ -639,25 +856,41 @@ SPECS = {
                 "are ready only after a while (before/at/after the instant an earlier attempt completes) or never, "
                 "per-attempt scripts (latency, ok/err, a share with panic/never), latencies biased to "
                 "0, delay-1, delay, delay+1 and (in a quarter of the cases) chosen so that several attempts complete at one instant; "
-                "advances land on start/completion instants -1/0/+1, late polls included; distinct = distinct implementation event log; "
+                "advances land on start/completion instants -1/0/+1, late polls included; which handle makes each request: up to three "
+                "services built lazily from the ONE layer value (some from a clone of the layer taken then), a fresh clone of the service per "
+                "request or handles that are kept and used call after call, clones of such handles taken after calls, `manual dropsvc` "
+                "(layer, services, handles all dropped while calls are in flight); handles whose inner service fails the readiness poll "
+                "(HedgeError::Inner, no call) and hedges whose fresh clone fails it (an attempt that failed without an inner call); half of "
+                "the cases with callers that read their error through HedgeError's accessors (and its Clone); "
+                "distinct = distinct implementation event log; "
                 "non-trivial = a hedge or parallel attempt was started, all-attempts-failed, a success after an error, or a completion "
                 "after the result",
         "level_text": "Theorems TR.Props.C12.{starts_bounded,starts_bounded_trace,starts_spaced,starts_spaced_indexed,positive_delay_separates,never_due_not_started,first_success_wins,"
                       "first_success_at_once,success_is_queued,all_failed_only_when_all_failed,no_late_start,no_start_when_finished,"
-                      "instants_sound,log_matches_attempts,record_unique}: "
+                      "instants_sound,log_matches_attempts,record_unique,due_hedges_are_started,configured_max_ge_one,clamp_spec,"
+                      "original_request_only,new_fires_a_single_hedge,default_config_one_hedge_after_a_second,requests_are_independent,"
+                      "accessors_spec,is_all_attempts_failed_sound,refused_is_inner_error}: "
                       "for every max_hedged_attempts >= 1, every delay function in microseconds (fixed, zero, per-attempt, below the timer's "
                       "millisecond resolution or not, or not representable as a deadline at all: never due), every operation sequence (all poll/advance/cancel orders, any number of concurrent "
-                      "requests), every script of latencies and outcomes and every readiness plan of the hedges' fresh clones, in the model "
-                      "of execute_with_hedging; proved by an inductive per-request invariant. The model is tied to the real HedgeLayer by "
+                      "requests), every script of latencies and outcomes and every readiness plan of the hedges' fresh clones (ready at once, "
+                      "later, never, or answering the readiness poll with an error), in the model "
+                      "of execute_with_hedging; proved by an inductive per-request invariant. Every configuration the crate's entry points "
+                      "can build (builder with any argument incl. 0, defaults, HedgeLayer::new, Hedge::new with the default config) meets the "
+                      "hypothesis max >= 1; requests are independent of each other and of the handle they are made on (the service has no "
+                      "state); the accessors of HedgeError are specified for every result. The model is tied to the real HedgeLayer by "
                       "line-for-line agreement of event logs on generated schedules.",
         "level_note": LEVEL_NOTE,
         "trusted": ["tokio spawn/mpsc/select!/sleep semantics as transcribed in TR.Model.Hedge (sampled by the correspondence check)",
                     "tokio timer resolution: deadlines rounded up to the millisecond (timerMs), instants are whole milliseconds in the harness",
                     "tokio sleep(d) with now + d not representable saturates to a far future (30 years on): modelled as never due (Cfg.never); no case advances that far",
                     "order of completions / clone readiness of simultaneously elapsed timers taken from the implementation (allowed set: permutations in deadline order)",
+                    "a Hedge service has no state besides its immutable configuration (read off lib.rs: `inner`, `config: Arc<HedgeConfig>`): the model has "
+                    "no notion of service / handle / clone, sampled by the correspondence on several services from one layer, reused and cloned handles",
                     "harness: clock_gettime interposition, manual poller, scripted inner service", "python diff/monitors"],
         "assumptions": ["one poll of one call future is atomic and the tasks it spawned run before the next operation (current-thread runtime)",
-                        "usize modelled as unbounded Nat; max_hedged_attempts >= 1 (the builder clamps)",
+                        "usize modelled as unbounded Nat; max_hedged_attempts >= 1 (the builder clamps: TR.Hedge.clampMax, theorem configured_max_ge_one; "
+                        "the clamp itself is sampled with max_hedged_attempts(0))",
+                        "a fresh clone that fails its readiness poll fails it at the first poll (kind 9, serial 0); a failure after a warm-up time is not scripted",
                         "mode is chosen once from delay(1), as in the code: delay(1)=0 means all attempts at once whatever a per-attempt function says later",
                         "an attempt is *started* when its task is spawned; with a fresh clone that is not ready at once the inner call comes later "
                         "(the spacing and the bound are about starts; the scripted inner service hands out script steps in call order)"],
